@@ -67,6 +67,9 @@ def _compare_one(job):
     loose = mode.endswith("+loose")
     if loose:
         mode = mode[:-6]
+    divtraps = mode.endswith("+divtraps")
+    if divtraps:
+        mode = mode[:-9]
     if mode.startswith("whole"):
         # whole-program comparison from the entry points (signatures may differ between the snapshots)
         mains_only = True
@@ -80,10 +83,14 @@ def _compare_one(job):
         names = [n for n in names if n in B.mains]
     if only:
         names = [n for n in names if only in n]
+    if divtraps:
+        # second pass, only for functions that divide: the reference side's division traps are outcomes
+        names = [n for n in names if '"op": "DIV"' in json.dumps(A.fns[n]["body"]) or '"op": "MOD"' in json.dumps(A.fns[n]["body"])]
     for n in names:
         t0 = time.time()
         try:
-            r = irsym.compare_function(n, A, B, bounds, enter=(mode == "enter"), ignore_type_names=ignore_types, loose_refs=loose)
+            r = irsym.compare_function(n, A, B, bounds, enter=(mode == "enter"), ignore_type_names=ignore_types, loose_refs=loose,
+                                       ref_div_traps=divtraps)
         except irsym.Unsupported as e:
             r = {"status": "skipped", "why": str(e)}
         except irsym.Budget as e:
@@ -92,6 +99,7 @@ def _compare_one(job):
             import traceback
             r = {"status": "error", "why": "%r %s" % (e, traceback.format_exc()[-600:])}
         r["fn"] = n
+        r["divtraps"] = divtraps
         r["wall_s"] = round(time.time() - t0, 2)
         out.append(r)
     return (prog, os.path.basename(fileA), os.path.basename(fileB), mode, out, sorted(set(A.fns) - set(B.fns)))
@@ -128,13 +136,31 @@ def run_mir_opt(res, tier, sc, drv, only_prog=None, only_fn=None):
             # enter calls on both sides up to the depth bound
             mode = "enter" if c[3] == "1" else "events"
             jobs.append((name, os.path.join(od, "mir_unopt.json"), os.path.join(od, "mir_opt_%s.json" % c), mode, bounds, only_fn))
+            if name != "repo-tests" and (c == "11111" or tier != "quick"):
+                jobs.append((name, os.path.join(od, "mir_unopt.json"), os.path.join(od, "mir_opt_%s.json" % c), mode + "+divtraps", bounds, only_fn))
     stats = {"functions_compared": 0, "equal": 0, "different": 0, "skipped": 0, "inconclusive": 0, "error": 0, "pairs": 0, "queries": 0,
              "bound_ref_paths": 0, "bound_new_paths": 0, "fully_covered_functions": 0}
     skipped_why = {}
+    from vlib.common import load_known
+    f29 = [k for k in load_known("C02") if k.get("ref_outcome") == "integer division trap"]
+    f29_sites = []
     t0 = time.time()
     with concurrent.futures.ProcessPoolExecutor(max_workers=min(14, max(1, len(jobs)))) as ex:
         for (prog, fa, fb, mode, out, dropped) in ex.map(_compare_one, jobs):
             for r in out:
+                if r.get("divtraps"):
+                    stats["division_trap_pass_functions"] = stats.get("division_trap_pass_functions", 0) + 1
+                    if r["status"] == "different" and r.get("ref_outcome") == "trap" and "division" in (r.get("ref_why") or ""):
+                        # the unoptimized run traps on a division; the optimized run behaves differently before / instead
+                        if f29:
+                            f29_sites.append("%s/%s" % (prog, r["fn"].split("$")[-1]))
+                            continue
+                        res.violation("%s: function %s: the unoptimized run traps on a division, the run after %s %s"
+                                      % (prog, r["fn"], fb, "does not trap (%s)" % r.get("new_outcome") if r.get("new_outcome") != "trap" else "traps after a different sequence of calls"),
+                                      {"program": prog, "function": r["fn"], "before": fa, "after": fb, **{k: v for k, v in r.items() if k != "fn"}})
+                        continue
+                    if r["status"] != "different":
+                        continue      # everything else was judged by the first pass
                 stats["functions_compared"] += 1
                 stats[r["status"]] = stats.get(r["status"], 0) + 1
                 stats["pairs"] += r.get("pairs", 0)
@@ -154,6 +180,9 @@ def run_mir_opt(res, tier, sc, drv, only_prog=None, only_fn=None):
                     res.inconc("%s/%s (%s): %s" % (prog, r["fn"], fb, r.get("why")))
                 if stats["functions_compared"] % 97 == 0:
                     res.sample({"program": prog, "function": r["fn"], "after": fb, "status": r["status"], "paths_ref": r.get("paths_ref"), "pairs": r.get("pairs")})
+    if f29_sites:
+        res.known("%s %s (%d sites in the corpus, e.g. %s)" % (f29[0]["id"], f29[0]["short"], len(set(f29_sites)), ", ".join(sorted(set(f29_sites))[:4])))
+        stats["division_trap_known_sites"] = sorted(set(f29_sites))
     stats["wall_s"] = round(time.time() - t0, 1)
     stats["skipped_reasons"] = skipped_why
     return {"programs": len(programs), "corpus": programs, "configurations": cfgs, "et": stats, "bounds": bounds}
@@ -429,6 +458,76 @@ def run_lirwat(res, tier, sc, drv):
                 elif r["status"] in ("error", "inconclusive"):
                     res.inconc("%s/%s: %s" % (prog, r["fn"], str(r.get("why"))[-300:]))
     return {"backend_programs": programs, "backend_functions": stats}
+
+
+def _law_one(job):
+    path, lhs, rhs, bounds = job
+    P = irsym.Prog(json.load(open(path)))
+    out = []
+    for a, b in ((lhs, rhs), (rhs, lhs)):
+        try:
+            r = irsym.compare_function(a, P, P, bounds, enter=True, timeout_s=30, name_b=b, typed=True)
+        except irsym.Unsupported as e:
+            r = {"status": "skipped", "why": str(e)}
+        except irsym.Budget as e:
+            r = {"status": "skipped", "why": "budget: %s" % e}
+        r["ref"], r["new"] = a, b
+        out.append(r)
+    return out
+
+
+def run_laws(res, tier, sc, drv):
+    """C01, source -> HIR -> MIR: pairs of functions that are equal by the language's semantics (a pattern is its
+    projections, a nested pattern is a nested match, `&&` is an if, ...) must compile to equivalent MIR.  Each pair
+    is compared in both directions (either side as the reference)."""
+    outroot = os.path.join(sc.root, "et")
+    b = {"forks": 14, "steps": 40000, "paths": 1500, "depth": 12, "seconds": 60 if tier == "quick" else 300}
+    jobs = []
+    for f in sorted(glob.glob(os.path.join(VERIF, "corpus_laws", "*.sam"))):
+        name = os.path.splitext(os.path.basename(f))[0]
+        od = os.path.join(outroot, "law_" + name)
+        p = drv.call(["dump", od, "none", "%s=%s" % (name, f)], check=False, timeout=600)
+        if '"status":"panic"' in p.stdout:
+            tc = drv.call(["typecheck", "%s=%s" % (name, f)], check=False, timeout=300)
+            if '"errors":""' in tc.stdout.replace(" ", ""):
+                res.violation("the compiler panics while lowering the accepted law program %s (source -> MIR)" % name, {"program": f})
+                continue
+        if '"status":"ok"' not in p.stdout:
+            raise Inconclusive("law corpus program %s is not accepted: %s" % (name, p.stdout[:400]))
+        mir = os.path.join(od, "mir_unopt.json")
+        fns = [x["name"] for x in json.load(open(mir))["functions"]]
+        lhs = [x for x in fns if x.endswith("Lhs")]
+        for l in lhs:
+            r = l[:-3] + "Rhs"
+            if r not in fns:
+                raise Inconclusive("law %s has no right-hand side in the compiled program" % l)
+            jobs.append((mir, l, r, b))
+    stats = {"laws": len(jobs), "equal": 0, "different": 0, "skipped": 0, "pairs": 0}
+    if not jobs:
+        if res.violations:
+            return {"source_laws": stats}
+        raise Inconclusive("no source-level laws found in corpus_laws")
+    with concurrent.futures.ProcessPoolExecutor(max_workers=min(14, len(jobs))) as ex:
+        for (job, out) in zip(jobs, ex.map(_law_one, jobs)):
+            law = job[1].split("$")[-1][:-3]
+            for r in out:
+                stats["pairs"] += r.get("pairs", 0)
+                if r["status"] == "different":
+                    stats["different"] += 1
+                    res.violation("source-level law `%s` does not hold in the compiled MIR: %s and %s differ (%s)"
+                                  % (law, r["ref"], r["new"], r.get("why")),
+                                  {"law": law, "program": os.path.basename(os.path.dirname(job[0])), **{k: v for k, v in r.items()}})
+                    break
+                elif r["status"] in ("skipped", "inconclusive", "error"):
+                    stats["skipped"] += 1
+                    res.inconc("law %s: %s" % (law, str(r.get("why"))[:300]))
+                else:
+                    if r.get("bound_ref") or r.get("bound_new"):
+                        stats.setdefault("with_bounded_paths", 0)
+                        stats["with_bounded_paths"] += 1
+            else:
+                stats["equal"] += 1
+    return {"source_laws": stats}
 
 
 def run_enum_layout(res, tier, sc, drv):
